@@ -175,9 +175,9 @@ HelperProgs == <<
   HP("requireesm", "js", "b(require(\"./lib2.js\"));", {}, {}, {}, TRUE, {"__esm", "__export", "__toCommonJS"}, {"__esmMin"}, {}),
   HP("reexport", "js", "export * from \"./lib.cjs\"; export * from \"x\";", {}, {}, {"formatCJS"}, TRUE, {"__reExport", "__toCommonJS", "__commonJS"}, {}, {}),
   HP("requireext", "js", "b(require(\"x\"));", {}, {}, {"formatESM"}, TRUE, {"__require"}, {}, {}),
-  HP("glob", "js", "b(import(\"./lib\" + a + \".js\"));", {}, {}, {}, TRUE, {"__glob", "__esm"}, {"__esmMin"}, {"dynamic-import"}),
-  HP("binary", "js", "import d from \"./data.bin\"; b(d);", {}, {}, {}, TRUE, {"__toBinary"}, {}, {}),
-  HP("binarynode", "js", "import d from \"./data.bin\"; b(d);", {}, {}, {"platformNode"}, TRUE, {"__toBinaryNode"}, {}, {})
+  HP("glob", "js", "b(require(\"./lib\" + a + \".js\"));", {}, {}, {}, TRUE, {"__glob", "__esm", "__toCommonJS"}, {"__esmMin"}, {}),
+  HP("binary", "js", "import d from \"./data.bin\"; b(d);", {}, {"from-base64"}, {}, TRUE, {"__toBinary"}, {}, {}),
+  HP("binarynode", "js", "import d from \"./data.bin\"; b(d);", {}, {"from-base64"}, {"platformNode"}, TRUE, {"__toBinaryNode"}, {}, {})
 >>
 HPIdxH == 1..Len(HelperProgs)
 HPullsIn(h) == {i \in HPIdxH : h \in HelperProgs[i].needs \cup HelperProgs[i].minNeeds}
@@ -231,7 +231,7 @@ HSkelSet == {HSkel(t) : t \in HTargets}
 HVariants(s) == {[s EXCEPT !.mi = m] : m \in HMinify \ {s.mi}} \cup
                {x \in {[s EXCEPT !.ov = o] : o \in HOverrides \ {s.ov}} : HIsConsistent(x)}
 \* per seed only some skeleton steps get their variants (every override and minify mode is used)
-HVarBase == {s \in HSkelSet : (HTIdx(s.t) + Seed) % 3 = 0}
+HVarBase == {s \in HSkelSet : (HTIdx(s.t) + Seed) % 4 = 0}
 HVarSet == UNION {HVariants(b) : b \in HVarBase}
 \* the steps that may follow history h (a small set: the action does not scan HSteps)
 HGenCand(h) ==
@@ -290,7 +290,7 @@ HExportProgs(dummy) ==
 HExported ==
   IF ~Gen THEN TRUE
   ELSE /\ (u.n = 0) => HExportProgs(0)
-       /\ (u.n >= 1) => PrintT(<<"CASE", ToJson([kind |-> "hist", steps |-> [i \in DOMAIN u.hist |-> HStepJson(u.hist[i])],
+       /\ (u.n >= 2) => PrintT(<<"CASE", ToJson([kind |-> "hist", steps |-> [i \in DOMAIN u.hist |-> HStepJson(u.hist[i])],
                                                   leaky |-> HLeaky(u.hist), differs |-> HDiffers(u.hist)])>>)
 HExportOK == u.n \in Nat /\ HExported
 =============================================================================
